@@ -61,15 +61,17 @@ func c12Outcomes() []outcome {
 // the four condition kinds, with fixed parameters
 func c12Conds(kindSet []int, variant int) []Cond {
 	var typeTarget any = ValErr{}
-	switch variant % 3 {
+	switch variant % 4 {
 	case 1:
 		typeTarget = PtrErr{} // non-pointer target for an error implemented with pointer receivers
 	case 2:
 		typeTarget = &PtrErr{}
+	case 3:
+		typeTarget = &ValErr{} // errors.As style pointer to a type implemented with value receivers
 	}
 	var moreErrs []error
 	var moreTypes []any
-	if variant >= 3 {
+	if variant >= 4 {
 		// several errors / types in one call, the interesting one not last
 		moreErrs, moreTypes = []error{E4}, []any{OtherErr{}}
 	}
@@ -270,7 +272,8 @@ type c12Holder struct {
 
 // c12Deep registers mk(0) as the result condition and runs freshly allocated mk(0) (deep-equal, never
 // identical) and mk(1) through every policy kind.
-func c12Deep[R any](typeName string, mk func(int) R) string {
+func c12Deep[R any](typeName string, mk func(int) R) []string {
+	var msgs []string
 	for _, v := range []int{0, 1} {
 		want := v == 0
 		desc := fmt.Sprintf("result type %s, condition registered for a value deep-equal to the result=%v", typeName, want)
@@ -279,7 +282,7 @@ func c12Deep[R any](typeName string, mk func(int) R) string {
 			n := 0
 			failsafe.Get(func() (R, error) { n++; return mk(v), nil }, retrypolicy.Builder[R]().WithMaxRetries(1).HandleResult(mk(0)).Build())
 			if (n == 2) != want {
-				return fmt.Sprintf("retry policy HandleResult, %s: function invoked %d times", desc, n)
+				msgs = append(msgs, fmt.Sprintf("retry policy HandleResult, %s: function invoked %d times", desc, n))
 			}
 		}
 		{
@@ -287,7 +290,7 @@ func c12Deep[R any](typeName string, mk func(int) R) string {
 			failsafe.Get(fn, cb)
 			cb.RecordResult(mk(v))
 			if got := cb.Metrics().Failures(); (got == 2) != want || (got != 0 && got != 2) {
-				return fmt.Sprintf("circuit breaker HandleResult, %s: %d failures recorded after an execution and a RecordResult", desc, got)
+				msgs = append(msgs, fmt.Sprintf("circuit breaker HandleResult, %s: %d failures recorded after an execution and a RecordResult", desc, got))
 			}
 		}
 		{
@@ -295,7 +298,7 @@ func c12Deep[R any](typeName string, mk func(int) R) string {
 			fb := fallback.BuilderWithFunc(func(failsafe.Execution[R]) (R, error) { applied = true; return mk(7), nil }).HandleResult(mk(0)).Build()
 			failsafe.Get(fn, fb)
 			if applied != want {
-				return fmt.Sprintf("fallback HandleResult, %s: fallback applied=%v", desc, applied)
+				msgs = append(msgs, fmt.Sprintf("fallback HandleResult, %s: fallback applied=%v", desc, applied))
 			}
 		}
 		{
@@ -303,7 +306,7 @@ func c12Deep[R any](typeName string, mk func(int) R) string {
 			rp := retrypolicy.Builder[R]().WithMaxRetries(2).HandleIf(func(R, error) bool { return true }).AbortOnResult(mk(0)).Build()
 			failsafe.Get(func() (R, error) { n++; return mk(v), nil }, rp)
 			if (n == 1) != want || (n != 1 && n != 3) {
-				return fmt.Sprintf("retry policy AbortOnResult, %s: function invoked %d times", desc, n)
+				msgs = append(msgs, fmt.Sprintf("retry policy AbortOnResult, %s: function invoked %d times", desc, n))
 			}
 		}
 		{
@@ -318,36 +321,36 @@ func c12Deep[R any](typeName string, mk func(int) R) string {
 				return mk(5), nil
 			}, hp)
 			if cancelled := vrt.Elapsed() == t0; cancelled != want {
-				return fmt.Sprintf("hedge CancelOnResult, %s: first result accepted at once=%v", desc, cancelled)
+				msgs = append(msgs, fmt.Sprintf("hedge CancelOnResult, %s: first result accepted at once=%v", desc, cancelled))
 			}
 		}
 	}
-	return ""
+	return msgs
 }
 
 func c12DeepCases() []struct {
 	name string
-	run  func() string
+	run  func() []string
 } {
 	type tc = struct {
 		name string
-		run  func() string
+		run  func() []string
 	}
 	return []tc{
-		{"*struct", func() string { return c12Deep("*c12Box", func(v int) *c12Box { return &c12Box{v} }) }},
-		{"struct holding a pointer", func() string {
+		{"*struct", func() []string { return c12Deep("*c12Box", func(v int) *c12Box { return &c12Box{v} }) }},
+		{"struct holding a pointer", func() []string {
 			return c12Deep("c12Holder", func(v int) c12Holder { x := v; return c12Holder{&x, "s"} })
 		}},
-		{"any holding a pointer", func() string { return c12Deep("any(*c12Box)", func(v int) any { return &c12Box{v} }) }},
-		{"array of pointers", func() string {
+		{"any holding a pointer", func() []string { return c12Deep("any(*c12Box)", func(v int) any { return &c12Box{v} }) }},
+		{"array of pointers", func() []string {
 			return c12Deep("[2]*int", func(v int) [2]*int { a, b := v, 9; return [2]*int{&a, &b} })
 		}},
-		{"slice", func() string { return c12Deep("[]int", func(v int) []int { return []int{v, 2} }) }},
-		{"map", func() string {
+		{"slice", func() []string { return c12Deep("[]int", func(v int) []int { return []int{v, 2} }) }},
+		{"map", func() []string {
 			return c12Deep("map[string]int", func(v int) map[string]int { return map[string]int{"k": v} })
 		}},
-		{"string", func() string { return c12Deep("string", func(v int) string { return fmt.Sprint("s", v) }) }},
-		{"struct of scalars", func() string { return c12Deep("c12Box", func(v int) c12Box { return c12Box{v} }) }},
+		{"string", func() []string { return c12Deep("string", func(v int) string { return fmt.Sprint("s", v) }) }},
+		{"struct of scalars", func() []string { return c12Deep("c12Box", func(v int) c12Box { return c12Box{v} }) }},
 	}
 }
 
@@ -355,7 +358,7 @@ func c12Units(tier string) []Unit {
 	subsets := orderedSubsets()
 	outs := c12Outcomes()
 	var us []Unit
-	for variant := 0; variant < 6; variant++ {
+	for variant := 0; variant < 8; variant++ {
 		variant := variant
 		for i := 0; i < len(subsets); i += 5 {
 			part := subsets[i:min(i+5, len(subsets))]
@@ -424,7 +427,7 @@ func c12Units(tier string) []Unit {
 			return st
 		}}
 	}
-	for variant := 0; variant < 3; variant++ {
+	for variant := 0; variant < 4; variant++ {
 		variant := variant
 		for i := 0; i < len(subsets); i += 5 {
 			part := subsets[i:min(i+5, len(subsets))]
@@ -437,7 +440,7 @@ func c12Units(tier string) []Unit {
 	}
 	deep := c12DeepCases()
 	us = append(us, runCases("C12/deep equality of results holding pointers", len(deep), "result types: *struct, struct holding a pointer, any holding a pointer, array of pointers, slice, map, string, struct of scalars",
-		func(k int) (string, string) { return "C12/deep/" + deep[k].name, deep[k].run() }))
+		func(k int) (string, string) { return "C12/deep/" + deep[k].name, strings.Join(deep[k].run(), "; ") }))
 	return us
 }
 
@@ -453,8 +456,8 @@ func init() {
 	register(&CheckDef{
 		Property:  "C12",
 		Technique: "exhaustive enumeration of the condition/outcome truth table, each cell executed on the real policies (fallback, retry, breaker, hedge) under the virtual runtime and compared with the documented rules",
-		Rule: "a case = an ordered subset of {HandleErrors, HandleErrorTypes, HandleResult, HandleIf} (all 65, three kinds of type target, single and multi-argument registrations) x an outcome from {0,1} x 19 error shapes (nil, sentinel, wrapped, joined, typed by value and by pointer, nested wrap/join, matching only through an Is method at three depths, unrelated); " +
-			"the same registrations are exercised as AbortOn* and CancelOn*; histories: every ordered pair of 18 outcomes classified one after the other by the same policy instances (65 subsets x 3 type targets); result conditions on eight result types (pointers, structs/arrays/interfaces holding pointers, slices, maps) with deep-equal but not identical values; observed only through the public API; distinct = distinct cases",
+		Rule: "a case = an ordered subset of {HandleErrors, HandleErrorTypes, HandleResult, HandleIf} (all 65, four kinds of type target, single and multi-argument registrations) x an outcome from {0,1} x 19 error shapes (nil, sentinel, wrapped, joined, typed by value and by pointer, nested wrap/join, matching only through an Is method at three depths, unrelated); " +
+			"the same registrations are exercised as AbortOn* and CancelOn*; histories: every ordered pair of 18 outcomes classified one after the other by the same policy instances (65 subsets x 4 type targets); result conditions on eight result types (pointers, structs/arrays/interfaces holding pointers, slices, maps) with deep-equal but not identical values; observed only through the public API; distinct = distinct cases",
 		Assume: []string{"errors.Is / errors.As / reflect.DeepEqual are the reference matchers", "a result condition on an outcome that carries an error: HandleResult must not match (documented); AbortOnResult / CancelOnResult: either reading accepted (not documented)"},
 		Units:  c12Units,
 	})
